@@ -170,6 +170,8 @@ func mathFloat64bits(f float64) uint64 { return math.Float64bits(f) }
 
 const budget = 1 << 30
 
+var plainReader bool
+
 type discardReader struct{ *bufio.Reader }
 
 func classify(err error) string {
@@ -189,7 +191,12 @@ func decodeResponse(s *schemawalk.Schema, frame []byte) (res string) {
 		}()
 		var m0, m1 runtime.MemStats
 		runtime.ReadMemStats(&m0)
-		rd := bufio.NewReaderSize(bytes.NewReader(frame), 4096)
+		var rd io.Reader = bufio.NewReaderSize(bytes.NewReader(frame), 4096)
+		if plainReader {
+			// a reader WITHOUT a Discard method (a bare bytes.Reader, a net.Conn): the decoder
+			// then skips through its io.Copy fallback
+			rd = bytes.NewReader(frame)
+		}
 		corr, msg, err := protocol.ReadResponse(rd, protocol.ApiKey(s.Api), int16(s.Version))
 		runtime.ReadMemStats(&m1)
 		if m1.TotalAlloc-m0.TotalAlloc > budget {
@@ -226,11 +233,12 @@ func main() {
 		sc.Buffer(make([]byte, 1<<20), 1<<28)
 		for sc.Scan() {
 			f := strings.Fields(sc.Text())
-			if len(f) < 4 || (f[1] != "dec" && f[1] != "decrec") {
+			if len(f) < 4 || (f[1] != "dec" && f[1] != "decrec" && f[1] != "decnd") {
 				continue
 			}
 			idx, _ := strconv.Atoi(f[2])
 			frame, _ := hex.DecodeString(strings.TrimPrefix(f[3], "."))
+			plainReader = f[1] == "decnd"
 			r := decodeResponse(&schemas[idx], frame)
 			if f[1] == "decrec" {
 				// implementation-only predicate: the class, never the value
@@ -357,6 +365,8 @@ func main() {
 				f = append(f, ub...)
 				binary.BigEndian.PutUint32(f[0:4], uint32(len(f)-4))
 				emit("dec", fmt.Sprintf("%d %s", idx, kvfmt.Bytes(f)), "", "unknown-tags")
+				emit("decnd", fmt.Sprintf("%d %s", idx, kvfmt.Bytes(f)), "", "unknown-tags,plain-reader")
+				emit("decnd", fmt.Sprintf("%d %s", idx, kvfmt.Bytes(frame)), "", "plain-reader")
 			}
 			// C17: truncation at byte k
 			ks := []int{}
@@ -391,6 +401,22 @@ func main() {
 				f := append([]byte(nil), frame...)
 				binary.BigEndian.PutUint32(f[0:4], uint32(int32(sz)))
 				ms = append(ms, mut{f, "mut-framesize"})
+			}
+			// the tag buffer of a flexible response header (count, then tag id / size per entry)
+			if s.Flexible {
+				for _, x := range []uint64{1, 2, 1 << 20, 1<<31 - 1, 1 << 32, 1 << 62, 1 << 63, 1<<63 + 1, ^uint64(0)} {
+					var vb []byte
+					putUvarint(&vb, x)
+					f := append(append(append([]byte(nil), frame[:8]...), vb...), frame[9:]...)
+					ms = append(ms, mut{setSize(f), "mut-uv-headertagcount"})
+				}
+				// one header tag whose size field is huge
+				for _, x := range []uint64{1 << 31, 1 << 63, ^uint64(0)} {
+					vb := []byte{1, 5}
+					putUvarint(&vb, x)
+					f := append(append(append([]byte(nil), frame[:8]...), vb...), frame[9:]...)
+					ms = append(ms, mut{setSize(f), "mut-uv-headertagsize"})
+				}
 			}
 			pick := lens
 			if *muts != 0 && len(lens) > *muts {
